@@ -35,6 +35,8 @@ class World:
     def __init__(self, d):
         self.d = d
         self.last_user = None       # content of the last effective user edit
+        self.tool_out = None        # what the last completed run left in the file
+        self.user_at_run = None     # last_user at that moment
         self.log = []
         self.probs = []
         self.runs = 0
@@ -52,7 +54,12 @@ class World:
         cur = self.read(NAME)
         c = {'wU': U, 'wU2': U2, 'wFA': F(U, 'A'), 'wS': cur if cur is not None else U}[op]
         if c != cur:
-            self.last_user = c
+            if self.tool_out is not None and c == self.tool_out:
+                # the user restored exactly the bytes the last run left: to any tool that looks at content (the md5 protocol) this is
+                # the situation right after that run, not a new edit
+                self.last_user = self.user_at_run
+            else:
+                self.last_user = c
         with open(os.path.join(self.d, NAME), 'wb') as f:
             f.write(c)
         self.log.append('%s (%d B)' % (op, len(c)))
@@ -74,6 +81,7 @@ class World:
             return
         if after != before:
             self.changed = True
+        self.tool_out, self.user_at_run = after, self.last_user
         expect = F(before, op[1])
         if after != expect:
             self.probs.append(('wrong-result', '%s left %s in the file instead of the formatted text' % (op, sha(after or b''))))
@@ -226,7 +234,7 @@ def check(ctx):
                       files={'U.c': U, 'U2.c': U2, 'A.cfg': CFG['A'], 'B.cfg': CFG['B'], 'history.txt': repr(h) + '\n' + '\n'.join(log)})
     ctx.sample(dict(history=list(plain[len(plain) // 2]), checked_after_each_step=['I1 backup == last user text whenever file != last user text', 'I2 md5 file names md5(file) after a completed writing run']))
     ctx.sample(dict(history=[list(o) if isinstance(o, tuple) else o for o in kills[len(kills) // 2]]))
-    ctx.assumptions += ['a user write that leaves the bytes unchanged does not start a new epoch',
+    ctx.assumptions += ['a user write that leaves the bytes unchanged, or restores exactly the bytes the last run left, does not start a new epoch (indistinguishable by content)',
                         'the invariants judged are the statement\'s clauses (I1, I2), not equality with one particular implementation of the protocol',
                         'kill = SIGKILL on syscall entry; kill positions beyond the window of that state are skipped and counted']
     ctx.require('plain_histories', 500)
